@@ -283,6 +283,25 @@ def tlc(module, cfg=None, files=None, workers=None, timeout=900, simulate=None, 
     return res
 
 
+def apalache(module, init, inv, length, timeout=1200, text=None):
+    """apalache-mc check on spec/<module>.tla (or the given text) in scratch; returns 'NoError' | 'Error' | 'other:<tail>'."""
+    d = scratch("vf-apa-")
+    src = os.path.join(SPEC, module + ".tla")
+    dst = os.path.join(d, module + ".tla")
+    if text is None:
+        shutil.copy(src, dst)
+    else:
+        with open(dst, "w") as fh:
+            fh.write(text)
+    rc, so, se = run(["apalache-mc", "check", "--init=" + init, "--inv=" + inv, "--length=%d" % length, "--out-dir=" + os.path.join(d, "out"), module + ".tla"],
+                     cwd=d, timeout=timeout, env=dict(os.environ, JVM_ARGS="-Xmx8g"))
+    out = (so or "") + (se or "")
+    m = re.search(r"The outcome is: (\w+)", out)
+    if rc is None:
+        return "other:timeout"
+    return m.group(1) if m and m.group(1) in ("NoError", "Error") else "other:" + out[-400:]
+
+
 def tlc_must_pass(res, what):
     """Design-stage run on the unchanged spec: anything but success is a machinery problem."""
     if not res.ok:
